@@ -262,3 +262,56 @@ func FieldEdges(fn *ssa.Function, field *types.Var, val bool) []EdgeKey {
 func ReachesFrom(b *ssa.BasicBlock, isTarget func(ssa.Instruction) bool) bool {
 	return FindPathF(Loc{b, 0}, isTarget, nil) != nil
 }
+
+// DerivedBoolEdges returns the edges on which the boolean `root` is known to have value
+// val although the branch tests a value computed from it with !, && or || (a phi whose other
+// incoming values are all the same constant): on the edge where the phi differs from that
+// constant it carries the non-constant operand.
+func DerivedBoolEdges(fn *ssa.Function, isRoot func(ssa.Value) bool, val bool) []EdgeKey {
+	var out []EdgeKey
+	for _, b := range fn.Blocks {
+		if len(b.Instrs) == 0 {
+			continue
+		}
+		ifi, ok := b.Instrs[len(b.Instrs)-1].(*ssa.If)
+		if !ok {
+			continue
+		}
+		cond, neg := Unnot(ifi.Cond)
+		phi, ok := cond.(*ssa.Phi)
+		if !ok {
+			continue
+		}
+		var nonConst ssa.Value
+		constVal, haveConst, mixed := false, false, false
+		for _, e := range phi.Edges {
+			if k, isK := e.(*ssa.Const); isK && k.Value != nil {
+				v := k.Value.String() == "true"
+				if haveConst && v != constVal {
+					mixed = true
+				}
+				constVal, haveConst = v, true
+				continue
+			}
+			if nonConst != nil && nonConst != e {
+				mixed = true
+			}
+			nonConst = e
+		}
+		if mixed || !haveConst || nonConst == nil {
+			continue
+		}
+		inner, ineg := Unnot(nonConst)
+		// nested derivation (phi of phi)
+		if !isRoot(inner) {
+			continue
+		}
+		// on the edge where phi == !constVal the non-constant operand has value !constVal
+		operandVal := !constVal
+		rootVal := operandVal != ineg
+		if rootVal == val {
+			out = append(out, IfEdge(b, neg, !constVal))
+		}
+	}
+	return out
+}
